@@ -1066,3 +1066,114 @@ def c13_13(run):
     if not n:
         raise Inconclusive('vacuity')
     run.require_reached(*run.cur.reach)
+
+
+# ----------------------------------------------------------------------------------------------------------------- C13-14
+@obligation('C13', 'C13-14 PendingTransactionsForAccount::subtract_contained_costs / pending_account_nonce (what maintenance uses to decide promotions and what clients are told): the remaining balance is the given balance minus the cost of every ready transaction (floored at 0), the container is untouched; the pending nonce is the highest ready nonce + 1, None only for an empty account')
+def c13_14(run):
+    ex = engine()
+    f = _impl_fn(ex, 'subtract_contained_costs', 'PendingTransactionsForAccount')
+    g = _impl_fn(ex, 'pending_account_nonce', 'PendingTransactionsForAccount')
+    run.bound(container='0..3 ready transactions of one account, nonces strictly increasing, one fee asset each', balances='one asset, arbitrary u128')
+    run.assume('a single fee asset that is present in the balance map (a cost in an asset the map lacks is skipped by the code with an error log; outside the bound)')
+    for k in (0, 1, 2, 3):
+        cont, olds, pc = _acct(ex, 'PendingTransactionsForAccount', k)
+        pc = pc[:max(k - 1, 0)]          # nonce u32::MAX allowed here
+        bal = z3.BitVec('balance', 128)
+        balances = M.new_map('HashMap<IbcPrefixed, u128>', [(ASSET, bal)])
+        st = ex.start(f, [B.cell(cont), B.cell(balances)])
+        st.pc += pc
+        order = [f't{j}' for j in range(k)]
+        total = sum((z3.ZeroExt(4, o[2]) for o in olds), z3.BitVecVal(0, 132))
+        want = z3.If(z3.ULE(total, z3.ZeroExt(4, bal)), z3.ZeroExt(4, bal) - total, z3.BitVecVal(0, 132))
+        for i, p in enumerate(run.explore(ex, st, allow_havoc=(r'^Arguments::|fmt::',))):
+            lab = f'[{k} txs, path {i}]'
+            if p.kind != 'return':
+                run.prove(f'no panic {lab}', p.pc, z3.BoolVal(False), detail=p.info); continue
+            kept = [t for _, t in container_view(ex, p, ex.read(p, p.roots['args'][0].loc))]
+            m = ex.deref_val(p, ex.read(p, p.roots['args'][1].loc))
+            items = m.attrs['items']
+            run.sample({'txs': k, 'path': i, 'kept': kept, 'balance_entries': len(items)})
+            if len(items) != 1:
+                run.prove(f'balance map keeps exactly its asset {lab}', p.pc, z3.BoolVal(False)); continue
+            after = ex.deref_val(p, items[0][1])
+            run.prove(f'remaining = max(0, balance - sum of the ready costs); container untouched {lab}', p.pc,
+                      z3.And(z3.BoolVal(kept == order), z3.ZeroExt(4, after) == want))
+        st = ex.start(g, [B.cell(cont)])
+        st.pc += pc
+        for i, p in enumerate(run.explore(ex, st, allow_havoc=(r'^Arguments::|fmt::',))):
+            lab = f'[nonce, {k} txs, path {i}]'
+            if p.kind != 'return':
+                run.prove(f'no panic {lab}', p.pc, z3.BoolVal(False), detail=p.info); continue
+            r = p.result
+            if k == 0:
+                run.prove(f'empty account => None {lab}', p.pc, z3.BoolVal(r.discr == 'None'))
+            else:
+                last = olds[-1][1]
+                v = ex.deref_val(p, r.fields.get(('Some', 0))) if r.discr == 'Some' else None
+                run.prove(f'pending nonce = highest ready nonce + 1 (saturating) {lab}', p.pc,
+                          z3.BoolVal(False) if v is None else v == z3.If(last == 0xFFFFFFFF, last, last + 1))
+    run.require_reached(*run.cur.reach)
+
+
+# ----------------------------------------------------------------------------------------------------------------- C13-15
+@obligation('C13', 'C13-15 recost_transactions (fee re-costing during maintenance): every transaction of the account, and only those, is re-costed with the costs computed for THAT transaction; a failed computation keeps the old costs; no transaction is added, dropped or moved')
+def c13_15(run):
+    R = re.compile
+
+    def h_costs(ctx):
+        tx = ctx.ex.deref_val(ctx.st, ctx.args[0])
+        tx = ctx.ex.deref_val(ctx.st, tx.fields[('in', 0)]) if isinstance(tx, Obj) and tx.kind == 'arc' else tx
+        tag = tx.attrs.get('tag'); ctx.st.log.append(('costs_of', tag))
+        okv = z3.Bool(f'costs_ok_{tag}')
+        c = M.new_map('HashMap<IbcPrefixed, u128>', [(ASSET, z3.BitVec(f'newcost_{tag}', 128))]); c.attrs['tag'] = f'new_costs_{tag}'
+        return [(None, M.thunk_future(lambda ex_, s2, fut: [(okv, (lambda s3: ok(s3.tr(c)))), (z3.Not(okv), (lambda s3: err(Obj('CheckedActionFeeError', kind='error'))))], c=c))]
+    hooks = [(R(r'CheckedTransaction::total_costs(::<.*>)?$'), h_costs),
+             (R(r'^(astria_eyre::eyre::)?(Report|ErrReport)(::<.*>)?::(new|wrap_err)(::<.*>)?$|^<Result<.*> as (astria_eyre::eyre::)?WrapErr<.*>>::wrap_err(::<.*>)?$'), lambda ctx: [(None, Obj(ctx.ret_ty, kind='error'))])]
+    ex = engine(hooks=hooks)
+    f = ex.find(r'^(mempool::transactions_container::)?TransactionsContainer::recost_transactions$')
+    run.bound(account='0..3 transactions of the re-costed account (nonces strictly increasing), one other account with one transaction', costs='CheckedTransaction::total_costs (C13-13) is an oracle per transaction: Ok(new costs) or Err',
+              instantiation='Self = PendingTransactions (the default trait method is shared with ParkedTransactions)')
+    n = 0
+    for k in (0, 1, 2, 3):
+        addr, other = z3.BitVec('account', 160), z3.BitVec('other_account', 160)
+        olds = [mk_ttx(ex, f't{j}') for j in range(k)]
+        a_t = ex.adts.lookup('TimemarkedTransaction'); ci = a_t['fields'].index('checked_tx'); cc = a_t['fields'].index('costs')
+        for j, o in enumerate(olds):
+            o[0].fields[(None, ci)].fields[('in', 0)].attrs['tag'] = f't{j}'
+            o[0].fields[(None, cc)].attrs['tag'] = f'old_costs_t{j}'
+        oth = mk_ttx(ex, 'other'); oth[0].fields[(None, ci)].fields[('in', 0)].attrs['tag'] = 'other'; oth[0].fields[(None, cc)].attrs['tag'] = 'old_costs_other'
+        mine = B.struct(ex, 'PendingTransactionsForAccount', txs=M.new_map('BTreeMap<u32, TimemarkedTransaction>', [(n_, t) for t, n_, _, _ in olds]))
+        theirs = B.struct(ex, 'PendingTransactionsForAccount', txs=M.new_map('BTreeMap<u32, TimemarkedTransaction>', [(oth[1], oth[0])]))
+        entries = ([(addr, mine)] if k else []) + [(other, theirs)]
+        cont = B.struct(ex, 'PendingTransactions', txs=M.new_map('HashMap<[u8; 20], PendingTransactionsForAccount>', entries), tx_ttl=z3.BitVec('ttl', 96))
+        st = ex.start(f, [B.cell(cont), B.cell(addr), B.cell(Obj('S', kind='cell'))])
+        st.pc += [z3.ULT(olds[j][1], olds[j + 1][1]) for j in range(k - 1)] + [addr != other]
+        for i, p in enumerate(run.explore(ex, st, poll=True, allow_havoc=(r'^Arguments::|fmt::',))):
+            lab = f'[{k} txs, path {i}]'
+            if p.kind != 'return':
+                run.prove(f'no panic {lab}', p.pc, z3.BoolVal(False), detail=p.info); continue
+            n += 1
+            c0 = ex.read(p, p.roots['args'][0].loc)
+            post = outer_view(ex, p, c0)
+            mine_after = [tags for kk, tags in post if tags and tags[0].startswith('t')]
+            order = [f't{j}' for j in range(k)]
+            shape_ok = (mine_after == ([order] if k else [])) and any(tags == ['other'] for _, tags in post) and len(post) == (2 if k else 1)
+            asked = [e[1] for e in p.log if e[0] == 'costs_of']
+            # costs now stored per transaction
+            stored = {}
+            m = B.fld(ex, p, c0, 'txs', 'HashMap')
+            for kk, v in m.attrs['items']:
+                inner = B.fld(ex, p, ex.deref_val(p, v), 'txs', 'BTreeMap<u32, TimemarkedTransaction>')
+                for _, t in inner.attrs['items']:
+                    t = ex.deref_val(p, t)
+                    stored[t.attrs.get('tag')] = ex.deref_val(p, t.fields[(None, cc)]).attrs.get('tag')
+            run.sample({'txs': k, 'path': i, 'asked': asked, 'stored': stored})
+            claim = [z3.BoolVal(shape_ok), z3.BoolVal(sorted(asked) == order), z3.BoolVal(stored.get('other') == 'old_costs_other')]
+            for j in range(k):
+                okv = z3.Bool(f'costs_ok_t{j}')
+                claim.append(z3.If(okv, z3.BoolVal(stored.get(f't{j}') == f'new_costs_t{j}'), z3.BoolVal(stored.get(f't{j}') == f'old_costs_t{j}')))
+            run.prove(f'each transaction of the account asked once and given its own new costs (old ones kept on failure); other accounts and the set of transactions untouched {lab}', p.pc, z3.And(*claim))
+    if n < 4:
+        raise Inconclusive(f'vacuity: {n} paths')
+    run.require_reached(*run.cur.reach)
